@@ -1384,6 +1384,12 @@ class RecordLoopSummary:
         self.S, self.acc_at, self.check = S, acc_at, check
         self.done = []
 
+    @staticmethod
+    def same_acc(I, a, b):
+        if isinstance(a, (bool, SBool)) or isinstance(b, (bool, SBool)):
+            return biff(bterm(mkbool(I.truth_term(a))), bterm(mkbool(I.truth_term(b))))
+        return xsame(xr(I.norm_scalar(a)), xr(I.norm_scalar(b)))
+
     def run_for(self, I, st, env, in_class):
         import ast
         from pyvc.interp import Env
@@ -1411,7 +1417,7 @@ class RecordLoopSummary:
             owner = I.eval(st.iter.func.value.value, env)
         n = d.length
         if acc is not None:
-            S.eq(f"[{self.tag(owner)}] accumulator on entry = its initial value", xr(I.norm_scalar(env.vars[acc])), xr(self.acc_at(d, 0)))
+            S.holds(f"[{self.tag(owner)}] accumulator on entry = its initial value", self.same_acc(I, env.vars[acc], self.acc_at(d, 0)))
         memo = {}
         base_rec = d._rec_of          # the records as they are when this loop starts (later summaries wrap them again)
         before_dicts = {a: dict(v) for a, v in owner.attrs.items() if isinstance(v, dict)} if isinstance(owner, Obj) else {}
@@ -1438,6 +1444,8 @@ class RecordLoopSummary:
                 ev[acc] = self.acc_at(d, j)
             env2 = Env(ev, frozen, env.module)
             env2.fn_qual = getattr(env, "fn_qual", None)
+            had = d._recs.get(k)
+            d._recs[k] = rec
             try:
                 I.exec_block(st.body, env2, in_class)
                 entries = {}
@@ -1446,6 +1454,10 @@ class RecordLoopSummary:
                         raise NotApplicable("the body rebinds a dict attribute of the owner object")
                     entries[a] = {kk: vv for kk, vv in v.items() if kk not in before_dicts[a]}
             finally:
+                if had is None:
+                    d._recs.pop(k, None)
+                else:
+                    d._recs[k] = had
                 for a, v in current.items():
                     owner.attrs[a] = v
             out = {"rec": rec, "entries": entries, "acc": env2.vars.get(acc) if acc is not None else None}
@@ -1457,7 +1469,7 @@ class RecordLoopSummary:
             c.assume(z3.And(j0 >= 0, j0 < zi(n)))
             e0 = effect_at(j0)
             if acc is not None:
-                S.eq(f"[{self.tag(owner)}] accumulator after the body at entry j = its invariant at j+1", xr(I.norm_scalar(e0["acc"])), xr(self.acc_at(d, j0 + 1)))
+                S.holds(f"[{self.tag(owner)}] accumulator after the body at entry j = its invariant at j+1", self.same_acc(I, e0["acc"], self.acc_at(d, j0 + 1)))
             if self.check is not None:
                 self.check(S, I, owner, d, j0, e0)
         memo.pop(tid(j0), None)
@@ -1512,14 +1524,16 @@ def assertion_collection(S, I, con, cid, rl):
             return (p_of(j), token("history", j))
 
         testobj.attrs["test"] = Builtin("abstract_test", test)
-        asn = Obj(Asn, {"contest": con, "test": testobj, "p_value": XR.finvar(c.fresh("old_p"), npk=True), "p_history": [],
+        asn = Obj(Asn, {"contest": con.get("con") if isinstance(con, dict) else con, "test": testobj,
+                        "p_value": XR.finvar(c.fresh("old_p"), npk=True), "p_history": [],
                         "proved": mkbool(OLDPROVED(j)), "winner": "A", "loser": "B", "margin": XR.const(Fraction(1, 10))})
         asn.attrs["mvrs_to_data"] = Builtin("abstract_mvrs_to_data", lambda I_, a, k, j=j: (token("data", j), XR(U(j))))
         return asn
 
     d = SymObjDict(iterm(NA), lambda j: token("assertion", j), make)
     spec = {"NA": NA, "P": P, "U": U, "OLDPROVED": OLDPROVED, "token": token, "log": log, "p_of": p_of, "rl": rl,
-            "RM": SymArr(iterm(NA), lambda j: p_of(j), "xr").fold("max0")}
+            "RM": SymArr(iterm(NA), lambda j: p_of(j), "xr").fold("max0"), "make": make,
+            "fresh": lambda: SymObjDict(iterm(NA), lambda j: token("assertion", j), make)}
     return d, spec
 
 
@@ -1709,3 +1723,144 @@ def reset_p_values_unbounded(S, I, variant):
             a = con.attrs["assertions"].rec_at(j)
             S.holds(f"[{cid}] after the call every assertion j reads: p-value 1, empty history, unconfirmed",
                     band(bterm(I.equal(a.attrs["p_value"], 1)), a.attrs["p_history"] == [], I.truth_term(a.attrs["proved"]) is False))
+
+
+# ------------------------------------------------------------------ C09: symbolic number of CONTESTS and of assertions per contest
+
+def contest_collection(S, I, with_p=False):
+    """a dict of contests of symbolic size; contest ci has its own risk limit and its own symbolic-size dict of assertions"""
+    c = ctx()
+    NC = S.integer("n_contests", lo=0)
+    RL = z3.Function("risk_limit", z3.IntSort(), z3.RealSort())
+    keys, specs = {}, {}
+
+    def key_of(ci):
+        k = tid(zi(ci))
+        if k not in keys:
+            keys[k] = FStr(["contest", SInt(zi(ci))])
+        return keys[k]
+
+    def spec_for(ci):
+        """the specification functions of contest ci (created once per index term, independent of any record object)"""
+        ci = zi(ci)
+        if tid(ci) not in specs:
+            c.assume(z3.And(RL(ci) > 0, RL(ci) <= Fraction(1, 2)), definitional=True)
+            holder = {}
+            cid = f"c@{z3.simplify(ci)}"
+            _, spec = assertion_collection(S, I, holder, cid, XR(RL(ci)))
+            spec["con_holder"], spec["cid"] = holder, cid
+            specs[tid(ci)] = (None, spec)
+        return specs[tid(ci)][1]
+
+    def make(ci):
+        ci = zi(ci)
+        spec = spec_for(ci)
+        con = mk_contest(I, id=spec["cid"], risk_limit=spec["rl"], cards=10, candidates=["A", "B"], winner=["A"])
+        d = spec["fresh"]()
+        spec["con_holder"]["con"] = con
+        if with_p:
+            base_make = d._rec_of
+
+            def rec_with_p(j, base_make=base_make, spec=spec):
+                a = base_make(j)
+                a.attrs["p_value"] = spec["p_of"](j)
+                return a
+            d.set_records(rec_with_p)
+        d.spec = spec
+        con.attrs["assertions"] = d
+        con.attrs["max_p"] = XR.finvar(c.fresh("old_max_p"))
+        return con
+
+    D = SymObjDict(iterm(NC), key_of, make)
+    return NC, D, spec_for
+
+
+def _is_items_loop_over(attr):
+    import ast as _ast
+    return lambda st: isinstance(st, _ast.For) and isinstance(st.iter, _ast.Call) and isinstance(st.iter.func, _ast.Attribute) \
+        and st.iter.func.attr == "items" and ((isinstance(st.iter.func.value, _ast.Attribute) and st.iter.func.value.attr == attr)
+                                              if attr else isinstance(st.iter.func.value, _ast.Name))
+
+
+@script(["C09", "C06", "C10"], "Assertion.set_p_values/post (unbounded numbers of contests and of assertions per contest)", optional=True)
+def set_p_values_unbounded2(S, I, variant):
+    c = ctx()
+    NC, D, spec_for = contest_collection(S, I)
+    contest_max = lambda ci: spec_for(idx_term(ci))["RM"].at(iterm(spec_for(idx_term(ci))["NA"]))
+    OUT = SymArr(iterm(NC), contest_max, "xr").fold("max0")
+
+    def inner_check(S_, I_, owner, d, j0, e0):
+        sp = d.spec
+        rec = e0["rec"]
+        mine = [t for t in sp["log"] if t[0].eq(zi(j0))]
+        once = len(mine) == 1 and mine[0][1] is sp["token"]("data", j0)
+        S_.holds("the test of assertion j of contest i is run once, on that assertion's data, holding the bound returned with the data",
+                 band(once, xsame(xr(mine[0][2]), XR(sp["U"](zi(j0))))) if once else False)
+        S_.holds("assertion j records exactly the p-value and history its test returned; proved = (p <= its contest's limit) or proved before",
+                 band(xsame(xr(rec.attrs["p_value"]), sp["p_of"](j0)), rec.attrs["p_history"] is sp["token"]("history", j0),
+                      biff(bterm(mkbool(I_.truth_term(rec.attrs["proved"]))), bor(xcmp("<=", sp["p_of"](j0), sp["rl"]), sp["OLDPROVED"](zi(j0))))))
+        key = d.key_at(j0)
+        ent = e0["entries"]
+        S_.holds("the contest's p_values / proved tables get exactly this assertion's entry",
+                 set(ent.get("p_values", {}).keys()) == {key} and set(ent.get("proved", {}).keys()) == {key}
+                 and band(xsame(xr(ent["p_values"][key]), sp["p_of"](j0))))
+
+    def outer_check(S_, I_, owner, d, i0, e0):
+        con = e0["rec"]
+        S_.holds("contest i's measured risk = running maximum of its assertions' p-values",
+                 xsame(xr(I_.norm_scalar(con.attrs["max_p"])), contest_max(i0)))
+
+    inner = RecordLoopSummary(S, lambda d, j: d.spec["RM"].at(j), inner_check)
+    outer = RecordLoopSummary(S, lambda d, i: OUT.at(i), outer_check)
+    I.loop_matchers["Assertion.set_p_values"] = [(_is_items_loop_over("assertions"), inner), (_is_items_loop_over(None), outer)]
+    fn = I.get(MOD, "Assertion.set_p_values")
+    mv = [sym_cvr(I, "mvr0", {"c0": ["A", "B"]})]
+    r, exc = guard(S, I, lambda: I.call(fn, [], {"contests": D, "mvr_sample": mv, "cvr_sample": list(mv)}))
+    if exc:
+        return
+    if not outer.done:
+        raise NotApplicable("the loop over the contests was not recognised")
+    S.holds("returned value = running maximum over the contests of their measured risks (0 if there is none)", xsame(xr(I.norm_scalar(r)), OUT.at(iterm(NC))))
+
+
+@script(["C09"], "Audit.summarize_status/post (unbounded numbers of contests and of assertions per contest)", optional=True)
+def summarize_status_unbounded2(S, I, variant):
+    c = ctx()
+    NC, D, spec_for = contest_collection(S, I, with_p=True)
+    spec_of = lambda ci: spec_for(idx_term(ci))
+
+    contest_max = lambda ci: spec_of(ci)["RM"].at(iterm(spec_of(ci)["NA"]))
+    incomplete = lambda ci: xcmp(">", contest_max(ci), spec_of(ci)["rl"])
+    CNT = SymArr(iterm(NC), lambda ci: mkint(iite(incomplete(ci), 1, 0)), "int").fold("+")     # number of contests not within their limit
+    pos = S.induction("the count of incomplete contests is >= 0", lambda k: bimp(icmp("<=", k, NC), icmp(">=", CNT.at(k), 0)), lo=0)
+
+    def done_at(d, i):
+        pos(i)              # (lemma instance: the count so far is >= 0)
+        return mkbool(icmp("==", CNT.at(i), 0))
+
+    inner = RecordLoopSummary(S, lambda d, j: d.spec["RM"].at(j), None)
+    outer = RecordLoopSummary(S, done_at, None)
+    I.loop_matchers["Audit.summarize_status"] = [(_is_items_loop_over("assertions"), inner), (_is_items_loop_over(None), outer)]
+    audit = Obj(I.get(MOD, "Audit"), {})
+    r, exc = guard(S, I, lambda: I.call(I.getattr(audit, "summarize_status"), [D], {}))
+    if exc:
+        return
+    if not outer.done:
+        raise NotApplicable("the loop over the contests was not recognised")
+    done = bterm(mkbool(I.truth_term(r)))
+    S.holds("reported complete exactly when no contest's measured risk exceeds its own limit", biff(done, icmp("==", CNT.at(iterm(NC)), 0)))
+    # from the count to the quantified statement: a count of 0 means no contest is incomplete (induction), and for a contest the
+    # measured risk is within the limit iff all its assertions are (running-maximum lemmas)
+    i = z3.Int(c.fresh("ci"))
+    c.assume(z3.And(i >= 0, i < zi(iterm(NC))))
+    nonneg = S.induction("the count of incomplete contests never decreases", lambda dd: bimp(icmp("<=", iadd(iadd(i, 1), dd), NC), icmp(">=", CNT.at(iadd(iadd(i, 1), dd)), CNT.at(iadd(i, 1)))), lo=0)
+    sp = spec_of(i)
+    j, ub, nn = running_max_lemmas(S, sp, "contest i")
+    W, att = running_max_attained(S, sp, "contest i")
+    if nonneg(isub(isub(NC, i), 1)) and pos(i) and ub(isub(isub(sp["NA"], j), 1)) and nn(iterm(sp["NA"])) and att(iterm(sp["NA"])):
+        S.holds("complete => every assertion j of every contest i has p <= contest i's limit", bimp(done, xcmp("<=", sp["p_of"](j), sp["rl"])))
+        w = W(zi(iterm(sp["NA"])))
+        S.holds("contest i not within its limit => not complete, and some assertion of contest i has p > the limit (witness)",
+                bimp(incomplete(i), band(bnot(done), w >= 0, w < zi(iterm(sp["NA"])), xcmp(">", sp["p_of"](w), sp["rl"]))))
+    else:
+        S.undecided("complete iff every assertion of every contest meets its contest's limit")
